@@ -15,13 +15,15 @@ COND_NAMES = {
     0: "b", 1: "not b", 2: "p(x)", 3: "x == o1", 4: "n < c", 5: "c <= n", 6: "b or p(x)", 7: "exists y:S. p(y)",
     8: "forall y:T. p(y) or b", 9: "n <= u (u undefined)", 10: "w(x) == o1", 11: "p(w(x))", 12: "not p(x)", 13: "n + 1 <= c",
     14: "F(n) < c (interpreted function)", 15: "st(x) (static Boolean fluent, default true)", 16: "exists y:T. p(y)",
+    17: "m(x) <= c",
 }
 EFF_NAMES = {
     0: "b := false", 1: "when C: b := true", 2: "n += d", 3: "n -= d", 4: "n := c1", 5: "when C: n := c2",
     6: "forall y:T. p(y) := v", 7: "w(x) := x", 8: "n := n + d", 9: "when C: n += d", 10: "p(x) := true", 11: "u := c1",
     12: "b := true", 13: "forall y:T. when p(y): p(y) := false", 14: "when C: w(x) := o1", 15: "p(x) := false",
     16: "when C: n -= d2", 17: "n := u", 18: "u -= d", 19: "u += d", 20: "forall y:T. when p(y): b := true",
-    21: "p(w(x)) := false (nested fluent in the effect target)",
+    21: "p(w(x)) := false (nested fluent in the effect target)", 22: "m(x) += d (bounded numeric fluent with a parameter)",
+    23: "m(x) -= d",
 }
 INV_NAMES = {0: "always n <= c3", 1: "always b or p(o1)", 2: "always forall y. b or not p(y)"}
 TRAJ_NAMES = {0: "sometime b", 1: "at-most-once p(o1)", 2: "sometime-before b p(o1)", 3: "sometime-after p(o1) b",
@@ -81,6 +83,8 @@ def _build(ctx, sk, env=None):
         ctx.assume(lb <= ub)
     n = Fluent(nm("n"), tm.IntType(lb, ub), environment=env)
     g.b, g.p, g.w, g.u, g.n, g.lb, g.ub = b, p, w, u, n, lb, ub
+    m = Fluent(nm("m"), tm.IntType(lb, ub), environment=env, **{nm("x"): T})  # same (possibly symbolic) bounds as n, one parameter
+    g.m = m
     g.st = None
     F = None
     uses = set(sk.get("pre", [])) | set(sk.get("goal", [])) | {sk.get("effcond", 2), sk.get("effcond2", 0)}
@@ -99,9 +103,10 @@ def _build(ctx, sk, env=None):
         g.st = Fluent(nm("st"), tm.BoolType(), environment=env, **{nm("x"): T})
         prob.add_fluent(g.st, default_initial_value=True)
     need_w = (not minimal) or bool(_c & {10, 11}) or bool(_e & {7, 14, 21})
-    need_n = (not minimal) or bool(_c & {4, 5, 9, 13, 14}) or bool(_e & {2, 3, 4, 5, 8, 9, 16, 17}) or 0 in sk.get("inv", [])
-    g.has = dict(u=need_u, w=need_w, n=need_n)
-    for fl, need in ((b, True), (p, True), (w, need_w), (u, need_u), (n, need_n)):
+    need_m = bool(_c & {17}) or bool(_e & {22, 23})
+    need_n = (not minimal and not need_m) or bool(_c & {4, 5, 9, 13, 14}) or bool(_e & {2, 3, 4, 5, 8, 9, 16, 17}) or 0 in sk.get("inv", [])
+    g.has = dict(u=need_u, w=need_w, n=need_n, m=need_m)
+    for fl, need in ((b, True), (p, True), (w, need_w), (u, need_u), (n, need_n), (m, need_m)):
         if need:
             prob.add_fluent(fl)
     if need_st and sk.get("st_false_for_o1", True):
@@ -157,6 +162,8 @@ def _build(ctx, sk, env=None):
         if i == 16:
             y = Variable("y", T, env)
             return em.Exists(em.FluentExp(p, [em.VariableExp(y)]), y)
+        if i == 17:
+            return em.LE(em.FluentExp(m, [x]), em.Int(C("c")))
         raise ValueError(i)
 
     g.cond = cond
@@ -209,6 +216,10 @@ def _build(ctx, sk, env=None):
                 act.add_increase_effect(em.FluentExp(u), em.Int(C("d")))
             elif i == 21:
                 act.add_effect(em.FluentExp(p, [em.FluentExp(w, [x])]), em.FALSE())
+            elif i == 22:
+                act.add_increase_effect(em.FluentExp(m, [x]), em.Int(C("d")))
+            elif i == 23:
+                act.add_decrease_effect(em.FluentExp(m, [x]), em.Int(C("d")))
             elif i == 20:
                 y = Variable("y", T, env)
                 act.add_effect(em.FluentExp(b), em.TRUE(), em.FluentExp(p, [em.VariableExp(y)]), forall=[y])
@@ -264,8 +275,12 @@ def _build(ctx, sk, env=None):
         tgt = o if wi == "id" else objs[ctx.choice(f"w0_{o.name}", len(objs))]
         prob.set_initial_value(em.FluentExp(w, [em.ObjectExp(o)]), em.ObjectExp(tgt))
     g.x0 = (ctx.int("x0", *sk.get("x0_range", (-2, 6))) if is_sym("x0") else DEFAULTS["x0"]) if need_n else None
+    if need_m and g.x0 is None:
+        g.x0 = ctx.int("x0", *sk.get("x0_range", (-2, 6))) if is_sym("x0") else DEFAULTS["x0"]
     if need_n:
         prob.set_initial_value(em.FluentExp(n), em.Int(g.x0))
+    for o in (objs if need_m else []):
+        prob.set_initial_value(em.FluentExp(m, [em.ObjectExp(o)]), em.Int(g.x0))
     if need_u and not sk.get("undef_u", True):
         prob.set_initial_value(em.FluentExp(u), em.Int(C("u0")))
     return g
